@@ -31,6 +31,7 @@ fn main() {
         "robust" => vdrv::robust::main(),
         "status" => vdrv::status::main(),
         "lifecycle" => vdrv::lifecycle::main(),
+        "realmaps" => vdrv::realmaps::main(),
         other => {
             eprintln!("verif-agent: unknown VERIF_CMD '{}'", other);
             2
